@@ -42,6 +42,18 @@ def _make_c(_n):
     return C()
 
 
+class E1:
+    pass
+
+
+class E2:
+    pass
+
+
+def _make_union() -> "E1 | E2":
+    return E1()
+
+
 async def _quiet(coro_or_fn, *a, **kw):
     """Call something that is expected to raise; the recorded outcome is what matters."""
     try:
@@ -329,6 +341,7 @@ async def component_tree():
             add_resource_factory(lambda: C(), types=[C], description="factory of " + self.tag)
             add_resource(B(), "withcb_" + self.tag, teardown_callback=FalsyCallable())    # a callable that is falsy
             add_resource_factory(functools.partial(_make_c, 1), "partial_" + self.tag, types=[C])   # hints of a partial cannot be read
+            add_resource_factory(_make_union, "union_" + self.tag)           # both types of the union annotation
             async with Context(current_context()) as explicit:   # the component's own context given explicitly as the parent
                 explicit.get_resources(A)
                 await _quiet(explicit.get_resource_nowait, B, "withcb_" + self.tag)
